@@ -18,7 +18,7 @@ TRUSTED = [
     "tools/gen_constants.py (growth allowance, error codes)",
 ]
 ASSUMPTIONS = [
-    "the Rust shape family (19 shapes, nesting depth <= 3) stands for the inductive universe on the implementation side",
+    "the Rust shape family (25 shapes, nesting depth <= 4, four of them with generated enums: top level, between siblings, as list elements, a list of enums inside an enum in tail position) stands for the inductive universe on the implementation side; the #[default_init] variant of an enum is the first listed variant of its descriptor",
     "the data access is the harness's GuardBuf (capacity = initial length + 10240, zero-filled growth, InvalidRealloc "
     "beyond it), which is what AccountInfo provides; AccountInfo itself is exercised by C07",
     "map / set keys compare as little-endian integers; strings are ASCII in generated cases",
@@ -39,7 +39,7 @@ def gen_ops_cases(rng, tier, n_quick, n_thorough, refuse_sweep=False, steps=(4, 
         flush = rng.below(2)
         budget = 16 if rng.chance(9, 10) else 200
         cases.append(("g%d" % j, O.gen_history(rng, shape, ns, refuse=refuse, flush=flush, budget=budget)))
-    return cases + stale_inner_cases(rng)
+    return cases + stale_inner_cases(rng) + enum_cases(rng, refuse_sweep)
 
 
 def stale_inner_cases(rng):
@@ -68,6 +68,61 @@ def stale_inner_cases(rng):
             steps = [[1, ulist_field, 34, elem], [1, ulist_field] + shrink_op,
                      [1, 0, 10, 0, grow] + [1, 5] * grow, [90], [1, ulist_field, 34, 0], [1, 0, 11, 0, grow // 2]]
             out.append(("stale%d_%d" % (idx, len(out)), O.encode_case(idx, desc, 0, -1, v0, steps)))
+    return out
+
+
+def enum_cases(rng, refuse_sweep=False):
+    """forced patterns on the enum shapes (E1 = {A(List<u8>) default, B(S1) = 3, C}; S7 = {a, e: E1, d}; UnsizedList<E1>;
+    S8 = {n, x, e: E2}, E2 = {P(UnsizedList<E1>) = 2, Q default, R(RemainingBytes) = 300}): variant switches between
+    resizing siblings, ops through the wrapper a setter returns, get() on another / a unit variant, element-level switches
+    inside a list of enums, and the allowance-scale stale-inner-pointer history of D26 with the list inside an enum.
+    With refuse_sweep (C06) every history is also run with growth refused at each step k."""
+    fam = U.family()
+    by = {idx: (idx, desc, ty) for idx, desc, ty in fam}
+    if not all(i in by and j in repr(by[i][2]) for i, j in ((22, "'E'"), (23, "'E'"), (24, "'E'"))):
+        return []
+    s1_default = ("S", [("B", [0, 0]), ("L", []), ("L", [])])
+    s1_some = ("S", [("B", [7, 1]), ("L", [[1], [2], [3]]), ("L", [[4, 5]])])
+    hist = []
+    # S7: the enum between two siblings
+    hist.append((22, ("S", [("L", [[1], [2]]), ("E", 0, ("L", [[9]])), ("L", [[3]])]), [
+        [1, 0, 15, 1, 7], [1, 1, 60, 3], [1, 1, 1, 3, 1, 1, 15, 1, 5], [1, 1, 1, 3, 1, 2, 15, 2, 1, 2],
+        [1, 2, 10, 0, 3, 1, 1, 1, 2, 1, 3], [1, 1, 60, 4], [1, 0, 11, 0, 1], [1, 1, 1, 4, 13], [1, 1, 1, 0, 13], [90],
+        [1, 1, 60, 0, 10, 0, 2, 1, 8, 1, 9], [1, 2, 12], [1, 1, 1, 0, 15, 1, 4], [1, 1, 60, 0],
+        [1, 1, 70] + U.enc_val(("E", 3, s1_some)), [1, 0, 13], [1, 1, 1, 3, 72, 2, 5, 1], [1, 1, 1, 3, 1, 2, 12],
+        [1, 1, 60, 3, 1, 1, 10, 0, 2, 1, 1, 1, 2], [1, 2, 15, 1, 1], [1, 1, 71, 0], [1, 0, 15, 1, 1], [1, 1, 60, 4], [1, 1, 60, 4]]))
+    # a list of enums: element-level switches
+    hist.append((23, ("U", [([], ("E", 0, ("L", [[1]]))), ([], ("E", 4, ("S", []))), ([], ("E", 3, s1_default))]), [
+        [1, 0, 60, 3], [1, 1, 60, 0, 15, 1, 9], [1, 0, 1, 3, 1, 1, 10, 0, 2, 1, 1, 1, 2], [30, 1, 2, 0], [1, 1, 1, 0, 15, 1, 3],
+        [34, 2], [1, 4, 60, 4], [1, 0, 60, 4], [35, 0], [1, 3, 1, 0, 11, 0, 1], [31, 0, 2], [90],
+        [1, 0, 60, 3, 1, 2, 15, 2, 7, 7], [1, 0, 70] + U.enc_val(("E", 0, ("L", [[5], [6]]))), [1, 5, 13], [32], [1, 0, 60, 0], [33]]))
+    # S8: a list of enums inside an enum in tail position; set_p / set_r / set_q with ops on the returned wrappers
+    hist.append((24, ("S", [("B", [1, 0]), ("L", [[1]]), ("E", 3, ("S", []))]), [
+        [1, 2, 60, 2, 30, 0, 2, 0], [1, 2, 1, 2, 1, 1, 60, 3, 1, 1, 15, 1, 9], [1, 1, 15, 1, 2], [1, 2, 1, 2, 1, 0, 1, 0, 15, 1, 4],
+        [1, 2, 1, 2, 34, 1], [1, 2, 60, 300, 20, 5], [1, 2, 1, 300, 21, 0, 7], [1, 1, 13], [1, 2, 1, 2, 13], [1, 2, 1, 300, 20, 2],
+        [90], [72, 2, 9, 9], [1, 2, 60, 3], [1, 2, 1, 3, 13], [1, 2, 60, 2], [1, 2, 1, 2, 30, 0, 1, 0], [1, 2, 60, 2, 30, 0, 3, 0],
+        [1, 2, 1, 2, 1, 2, 60, 4], [1, 2, 71, 0], [1, 2, 70] + U.enc_val(("E", 300, ("B", [1, 2, 3]))), [1, 1, 15, 1, 3]]))
+    out = []
+    for hi, (idx, v0, steps) in enumerate(hist):
+        _, desc, ty = by[idx]
+        o = O.Oracle(idx, ty, v0, -1)
+        for op in steps:
+            if op != [90]:
+                assert O.apply(o, None, op).kind != "skip", ("enum_cases: not applicable", idx, op)
+        ks = [-1] + (list(range(len(steps))) if refuse_sweep else [])
+        for k in ks:
+            out.append(("enum%d_%d" % (hi, k + 1), O.encode_case(idx, desc, hi % 2, k, v0, steps)))
+    # D26 through an enum: get_mut far into the list held by variant P, empty the list (clear / switch the variant away),
+    # grow the PRECEDING sibling x by about the allowance, re-borrow, use the enum again
+    _, desc, ty = by[24]
+    for how in range(3):
+        big = [[rng.below(256)] for _ in range(rng.range(150, 260))]
+        v0 = ("S", [("B", [0, 0]), ("L", []), ("E", 2, ("U", [([], ("E", 0, ("L", big))), ([], ("E", 4, ("S", [])))]))])
+        empty = [[1, 2, 1, 2, 33], [1, 2, 60, 3], [1, 2, 1, 2, 31, 0, 1]][how]
+        grow = U.MAX_INC + len(big) - 8 - rng.range(0, 40)
+        steps = [[1, 2, 1, 2, 34, 1], empty, [1, 1, 10, 0, grow] + [1, 5] * grow, [90],
+                 [1, 2, 60, 2, 30, 0, 1, 0], [1, 2, 1, 2, 34, 0], [1, 1, 11, 0, grow // 2], [1, 2, 60, 300, 20, 9]]
+        out.append(("enumstale%d" % how, O.encode_case(24, desc, 0, -1, v0, steps)))
     return out
 
 
